@@ -317,11 +317,16 @@ impl World {
             if list.is_empty() {
                 continue;
             }
-            let (log, m) = (log.clone(), muxes[side].clone().unwrap());
+            let (log, m, parking) = (log.clone(), muxes[side].clone().unwrap(), parking.clone());
             sp.spawn(format!("dgsend{side}"), TaskKind::MuxUser(side), async move {
                 for (idx, d) in list {
-                    for _ in 0..d.delay {
-                        yield_once().await;
+                    if d.delay >= DG_PARK {
+                        // wait for the harness event Wake(delay - DG_PARK)
+                        parking.park(d.delay - DG_PARK).await;
+                    } else {
+                        for _ in 0..d.delay {
+                            yield_once().await;
+                        }
                     }
                     let dg = Datagram {
                         flow_id: d.flow_id,
